@@ -22,6 +22,8 @@ macro_rules! harness {
         #[kani::stub(shuttle_engine::seed_from_env, $crate::stubs::seed_from_env)]
         #[kani::stub(alloc::fmt::format, $crate::stubs::fmt_format)]
         #[kani::stub(std::thread::panicking, $crate::stubs::thread_panicking)]
+        #[kani::stub(std::io::_eprint, $crate::stubs::io_print_noop)]
+        #[kani::stub(std::io::_print, $crate::stubs::io_print_noop)]
         #[kani::stub(std::sync::Mutex::lock, $crate::stubs::std_mutex_lock)]
         #[kani::stub(std::task::Waker::wake, $crate::stubs::waker_wake)]
         #[kani::stub(std::task::Waker::wake_by_ref, $crate::stubs::waker_wake_by_ref)]
@@ -79,15 +81,8 @@ impl Scheduler for NullSched {
     }
 }
 
-/// Number of `thread::switch()` calls intercepted so far.
-pub static mut SWITCHES: usize = 0;
-
-pub fn counting_switch() {
-    unsafe { SWITCHES += 1 };
-}
-
 pub fn switches() -> usize {
-    unsafe { SWITCHES }
+    shuttle_engine::verif_support::recorder().switches
 }
 
 pub fn tid(i: usize) -> TaskId {
@@ -98,7 +93,7 @@ pub fn tid(i: usize) -> TaskId {
 /// the others as its children through the real clock inheritance) and run `f` inside it with
 /// task 0 current. The state is leaked afterwards (no drop glue in the formula).
 pub fn with_state<R>(n: usize, config: Config, sched: Rc<RefCell<dyn Scheduler>>, f: impl FnOnce() -> R) -> R {
-    shuttle_engine::verif_support::set_switch_callback(Some(counting_switch));
+    shuttle_engine::verif_support::set_switch_interception(true);
     let state = RefCell::new(ExecutionState::verif_new(config, sched));
     let r = ExecutionState::verif_enter(&state, || {
         ExecutionState::with(|s| {
